@@ -81,6 +81,8 @@ func (c *hsCase) translate(n, a string) (string, string, error) {
 	switch {
 	case c.tr == "id":
 		return n, a, nil
+	case c.tr == "panic":
+		panic("translator panicked")
 	case c.tr == "err":
 		return "", "", errTranslate
 	case strings.HasPrefix(c.tr, "const:"):
@@ -100,7 +102,7 @@ func (c *hsCase) ext() string {
 	}
 	parts := strings.Split(strings.TrimSpace(tok), "|")
 	addr := ""
-	if len(parts) >= 4 {
+	if len(parts) >= 4 && c.tr != "panic" {
 		_, a, err := c.translate(parts[2], parts[3])
 		if err == nil {
 			addr = a
@@ -241,6 +243,13 @@ func runHsCase(c *hsCase) hsResult {
 	case r.panicked != nil:
 		impl = fmt.Sprintf("panic killed=%s", b01(kills > 0))
 		pred = "FAIL:host-panic:" + strings.ReplaceAll(fmt.Sprint(r.panicked), " ", "_")
+		if c.tr == "panic" {
+			// the runner's own panic, not go-plugin's: what is demanded is that it reaches the caller AFTER the kill
+			pred = "ok"
+			if kills == 0 {
+				pred = "FAIL:panic-in-start-left-the-process-running"
+			}
+		}
 	case r.err != nil:
 		sent := "none"
 		if errors.Is(r.err, plugin.ErrGRPCBrokerMuxNotSupported) {
@@ -443,6 +452,10 @@ func hsGenerate(r *rng, nRandom int) []*hsCase {
 				cases = append(cases, hsMk(cfg, b, "plain", tr))
 			}
 		}
+	}
+	// a custom runner whose PluginToHost panics while the process exists: the panic reaches the caller after the kill
+	for _, b := range baselines {
+		cases = append(cases, hsMk(cfgs[0], b, "plain", "panic"))
 	}
 	// AutoMTLS (real certificate generation in Start) on a few
 	for _, b := range baselines {
